@@ -369,6 +369,28 @@ def run(tier, rep):
     for i in small_ints:
         for j in (-1, -2, -3, -10, Big(-1), -63, -64, -1074, -1075):
             add('pow', [i, j], 'ii-negexp')
+    # int / int is the exact quotient rounded once: quotients exactly at, and a hair off, a tie between two adjacent doubles, for operands of
+    # a few bits up to over a thousand (the quotient (2m+1)/2 of N = (2m+1)*d*c + delta and D = 2*d*c needs 54 bits)
+    rt = rng(PID, 'ties')
+    for k in range(1500 if tier == 'quick' else 40000):
+        m = rt.getrandbits(52) | (1 << 52)
+        dbits = rt.choice([1, 2, 8, 31, 53, 60, 64, 65, 100, 128, 190, 193, 200, 256, 300, 400, 700])
+        cbits = rt.choice([1, 1, 8, 64, 130, 200, 320])
+        d = rt.getrandbits(dbits) | (1 << (dbits - 1))
+        c = rt.getrandbits(cbits) | (1 << (cbits - 1)) | 1
+        delta = rt.choice([0, 0, 1, -1, 2, -3, rt.getrandbits(max(1, (dbits + cbits) // 2)), -rt.getrandbits(max(1, (dbits + cbits) // 3))])
+        N = (2 * m + 1) * d * c + delta
+        D = 2 * d * c
+        e = rt.choice([0, 0, 0, 1, 7, 64, 300, 900, 969, 970, 971])
+        if rt.random() < 0.5:
+            N <<= e
+        else:
+            D <<= e
+        if rt.random() < 0.5:
+            N = -N
+        if rt.random() < 0.2:
+            D = -D
+        add('truediv', [N, D], 'ii-tie')
     # ---------------- unary, conversions, round, text ----------------
     for a in FL:
         for op in ('neg', 'pos', 'abs', 'call:abs', 'bool', 'call:int', 'call:float', 'str', 'repr', 'call:str', 'call:repr'):
